@@ -1029,13 +1029,16 @@ class Polyhedron(Shape3D):
         """
         old_centroid = self.centroid
         self.centroid = np.array([0, 0, 0])
-        data = self.to_json(
-            ["vertices", "faces", "centroid", "volume", "inertia_tensor"]
-        )
+        try:
+            data = self.to_json(
+                ["vertices", "faces", "centroid", "volume", "inertia_tensor"]
+            )
+        finally:
+            # Move the shape back even if one of the properties raises.
+            self.centroid = old_centroid
         hoomd_dict = _map_dict_keys(data, key_mapping=_hoomd_dict_mapping)
         hoomd_dict["sweep_radius"] = 0.0
 
-        self.centroid = old_centroid
         return hoomd_dict
 
     def save(self, filetype, filename):
